@@ -17,7 +17,8 @@ S = load()
 HASH_TWINS = {-1: -2, -2: -1, 0: 2 ** 61 - 1, 2 ** 61 - 1: 0}
 
 KEY_ALPHABETS = {
-    "int": [0, 1, 2, 3, -1, 2 ** 40],
+    # incl. pairs hash() cannot tell apart: -1 / -2, 0 / 2**61-1, 1 / 2**61 (distinct keys all the same)
+    "int": [0, 1, 2, 3, -1, -2, 2 ** 40, 2 ** 61 - 1, 2 ** 61],
     "str": ["a", "b", "A", "", "ab", "é"],
     "bool": [True, False],
     "date": [date(2020, 1, 1), date(2020, 1, 2), date(2021, 6, 30), date(1999, 12, 31)],
@@ -222,12 +223,16 @@ def group_case(draw, tier="quick"):
     nv = draw(st.integers(1, 3))
     vals = []
     for _ in range(nv):
-        kind = draw(st.sampled_from(["int", "int", "float", "bool", "str", "date", "bigint", "bigfloat", "cancel"]))
+        kind = draw(st.sampled_from(["int", "int", "float", "bool", "str", "date", "bigint", "bigfloat", "cancel", "hugeint", "bigmix"]))
         el = {"int": st.integers(-5, 9), "float": st.sampled_from([0.5, 1.5, -2.0, 3.25, 0.0, 10.0]), "bool": st.booleans(),
               "str": st.sampled_from(["a", "b", "c", ""]), "date": st.sampled_from(KEY_ALPHABETS["date"]),
               "bigint": st.sampled_from([10 ** 8 + 1, 10 ** 8 + 2, 10 ** 8 + 3, 10 ** 8 + 7]),
               "bigfloat": st.sampled_from([1e9 + 0.1, 1e9 + 0.2, 1e9 + 0.3, 1e9 + 0.75]),
-              "cancel": st.sampled_from([1e16, 1.0, -1e16, 3.3, 1e100, -1e100, 2.2])}[kind]
+              "cancel": st.sampled_from([1e16, 1.0, -1e16, 3.3, 1e100, -1e100, 2.2]),
+              # ints no float holds exactly (ids, epoch nanoseconds): exact integer arithmetic is the textbook answer
+              "hugeint": st.sampled_from([2 ** 53 + 1, 2 ** 53 + 3, 10 ** 18 + 1, 2 ** 62 - 1, 1, -(2 ** 53) - 1]),
+              # a float-typed column that still holds such ints (serif keeps raw values): Python adds ints exactly until a float turns up
+              "bigmix": st.sampled_from([2 ** 53 + 1, 1, 0.5, 2 ** 53 + 3, 2.5, 3])}[kind]
         mode = draw(st.sampled_from(["no", "some", "some", "all"]))
         xs = draw(st.lists(el, min_size=n, max_size=n))
         if mode == "some":
@@ -243,7 +248,7 @@ def group_case(draw, tier="quick"):
         vals.append({"kind": kind, "name": name, "form": form, "values": xs, "declared": declared})
     funcs = ["sum", "mean", "min", "max", "stdev", "count"]
     aggs = {}
-    numeric = [j for j, v in enumerate(vals) if v["kind"] in ("int", "float", "bool", "bigint", "bigfloat")]
+    numeric = [j for j, v in enumerate(vals) if v["kind"] in NUMERIC]
     for f in draw(st.lists(st.sampled_from(funcs), min_size=0, max_size=6, unique=True)):
         pool = numeric if f in ("sum", "mean", "stdev") else list(range(nv))
         if not pool:
@@ -257,7 +262,7 @@ def group_case(draw, tier="quick"):
 
 
 KEY_NAMES = ["g0", "G 1", "g2"]
-NUMERIC = ("int", "float", "bool", "bigint", "bigfloat")
+NUMERIC = ("int", "float", "bool", "bigint", "bigfloat", "hugeint", "bigmix")
 
 
 def realise_group(case):
